@@ -15,7 +15,7 @@ StepOfImpl(h, r) ==
     ELSE LET x == R!CallStep(h, r) IN
          IF x.ok THEN [ok |-> Probe(x.h, r) /\ R!RcConsistent(x.h) /\ R!AliveIffOwned(x.h), st |-> x.h] ELSE [ok |-> FALSE, st |-> h]
 TraceLog == ndJsonDeserialize(IOEnv.TRACE)
-T == INSTANCE TraceBase WITH Log <- TraceLog, InitSt <- [n |-> <<>>], StepOf <- StepOfImpl
+T == INSTANCE TraceBase WITH Log <- TraceLog, InitSt <- [n |-> <<>>], StepOf <- StepOfImpl, ResyncAtNew <- TRUE
 Spec == T!Spec
 Done == T!Done
 ====
